@@ -1128,4 +1128,76 @@ mut(
     "    if input_eval or input_param.isupper():\n        if input_param.count",
 )
 
+# ------------------------------------------------------------------------------ C08
+mut(
+    "c08-handle-null-unguarded",
+    "C08",
+    "C08.growth",
+    "cdd/sqlalchemy/utils/parse_utils.py",
+    """        if not _param["typ"].startswith("Optional["):
+            _param["typ"] = "Optional[{}]".format(_param["typ"])
+""",
+    """        _param["typ"] = "Optional[{}]".format(_param["typ"])
+""",
+)
+mut(
+    "c08-defaults-to-without-has-defaults",
+    "C08",
+    "C08.growth",
+    "cdd/shared/defaults_utils.py",
+    '    elif "default" in _param and not has_defaults and emit_default_doc:',
+    '    elif "default" in _param and emit_default_doc:',
+)
+mut(
+    "c08-pk-key-not-deleted",
+    "C08",
+    "C08.growth",
+    "cdd/sqlalchemy/utils/parse_utils.py",
+    """                else "[{}]".format(shortname)
+            )
+            del _param[longname]
+""",
+    """                else "[{}]".format(shortname)
+            )
+""",
+)
+mut(
+    "c08-strip-partner-removed",
+    "C08",
+    "C08.growth",
+    "cdd/sqlalchemy/utils/emit_utils.py",
+    '    rstripped_dot_doc: str = _param.get("doc", "").rstrip(".")\n',
+    '    rstripped_dot_doc: str = _param.get("doc", "")\n',
+)
+mut(
+    "c08-optional-doc-unguarded",
+    "C08",
+    "C08.growth",
+    "cdd/shared/docstring_parsers.py",
+    """            and "typ" in _param
+            and not _param["typ"].startswith("Optional[")
+        ):""",
+    """            and "typ" in _param
+        ):""",
+)
+# ------------------------------------------------------------------------------ C15
+mut(
+    "c15-header-stripped",
+    "C15",
+    "C15.tile",
+    "cdd/shared/docstring_utils.py",
+    "            original_doc_str[:start_idx_original] if start_idx_original > -1 else None\n        )\n        args_returns_original",
+    "            original_doc_str[:start_idx_original].rstrip(\" \") if start_idx_original > -1 else None\n        )\n        args_returns_original",
+    mention=["header"],
+)
+mut(
+    "c15-footer-from-start-index",
+    "C15",
+    "C15.tile",
+    "cdd/shared/docstring_utils.py",
+    "            original_doc_str[last_idx_original:] if last_idx_original != -1 else None\n",
+    "            original_doc_str[start_idx_original:] if last_idx_original != -1 else None\n",
+    mention=["footer"],
+)
+
 MUTANTS = M
